@@ -49,38 +49,46 @@ theorem NStep.trans {a b c : G} (h1 : NStep a b) (h2 : NStep b c) : NStep a c :=
   rw [h2.2 hb', e1]
 
 theorem ninv_release (g : G) (h : RelPre g) : NStep g g.release.1 := by
-  unfold G.release
-  cases hj : g.joiner with
+  obtain ⟨hw, hsem, hbl, hpo⟩ := h
+  obtain ⟨wait, fixed, mem, pending, daemons, doneq, sem, waiters, completed, joined, joiner, log,
+    popped, joinPopped⟩ := g
+  simp only [] at hpo
+  cases joiner with
   | none =>
-    have hw := h.waiters
-    simp only [isBlocked, hj, Bool.false_eq_true, ↓reduceIte] at hw
-    rw [hw]
-    refine ⟨⟨?_, ?_, ?_, h.popped⟩, fun _ => hj⟩
-    · simp [isBlocked, hj]
-    · have := h.sem; simp only [hpNat, hj] at this ⊢; omega
-    · intro j hj'; simp [hj] at hj'
+    simp only [isBlocked, Bool.false_eq_true, ↓reduceIte] at hw
+    subst hw
+    simp only [hpNat] at hsem
+    refine ⟨⟨?_, ?_, ?_, hpo⟩, fun _ => rfl⟩
+    · simp [G.release, isBlocked]
+    · simp only [G.release, hpNat]; omega
+    · intro j hj; simp [G.release] at hj
   | some j =>
-    cases hb : j.blocked with
+    obtain ⟨ph, sn, ex, bl, hpm, ab⟩ := j
+    cases bl with
     | true =>
-      have hw := h.waiters
-      simp only [isBlocked, hj, hb, ↓reduceIte] at hw
-      rw [hw]
-      obtain ⟨hperm, hsem⟩ := h.blocked j hj hb
-      simp only [G.wake, hj, Option.map_some]
-      refine ⟨⟨?_, ?_, ?_, h.popped⟩, ?_⟩
-      · simp [isBlocked]
-      · have := h.sem; simp only [hpNat, hj, hperm] at this; simp [hpNat]; omega
-      · intro j' hj'; simp only [Option.some.injEq] at hj'; subst hj'; simp
-      · intro hbl; simp [isBlocked, hj, hb] at hbl
+      obtain ⟨hperm, hs0⟩ := hbl _ rfl rfl
+      simp only [] at hperm hs0
+      subst hperm; subst hs0
+      simp only [isBlocked, ↓reduceIte] at hw
+      subst hw
+      simp only [hpNat, Bool.false_eq_true, ↓reduceIte] at hsem
+      refine ⟨⟨?_, ?_, ?_, hpo⟩, ?_⟩
+      · simp [G.release, G.wake, isBlocked]
+      · simp only [G.release, G.wake, hpNat, Option.map_some, ↓reduceIte]; omega
+      · intro j hj hb
+        simp only [G.release, G.wake, Option.map_some, Option.some.injEq] at hj
+        subst hj; simp at hb
+      · intro hb; simp [isBlocked] at hb
     | false =>
-      have hw := h.waiters
-      simp only [isBlocked, hj, hb, Bool.false_eq_true, ↓reduceIte] at hw
-      rw [hw]
-      refine ⟨⟨?_, ?_, ?_, h.popped⟩, fun _ => hj⟩
-      · simp [isBlocked, hj, hb]
-      · have := h.sem; simp only [hpNat, hj] at this ⊢; omega
-      · intro j' hj'; simp only [hj, Option.some.injEq] at hj'; subst hj'
-        intro hb'; simp [hb] at hb'
+      simp only [isBlocked, Bool.false_eq_true, ↓reduceIte] at hw
+      subst hw
+      simp only [hpNat] at hsem
+      refine ⟨⟨?_, ?_, ?_, hpo⟩, fun _ => rfl⟩
+      · simp [G.release, isBlocked]
+      · simp only [G.release, hpNat]; omega
+      · intro j hj hb
+        simp only [G.release, Option.some.injEq] at hj
+        subst hj; simp at hb
 
 /-- a state change that leaves the semaphore, the queues and the joiner alone and does not empty
 `pending` keeps the invariant -/
@@ -88,8 +96,8 @@ theorem ninv_frame {g g' : G} (h : NInv g) (hw : g'.waiters = g.waiters) (hs : g
     (hd : g'.doneq = g.doneq) (hj : g'.joiner = g.joiner) (hp : g.pending ≠ [] → g'.pending ≠ [])
     (hpo : g'.popped = g.popped) (hjp : g'.joinPopped = g.joinPopped) : NStep g g' := by
   refine ⟨⟨?_, ?_, ?_, by rw [hpo, hjp, h.popped]⟩, fun _ => hj⟩
-  · rw [hw, h.waiters]; simp [isBlocked, hj]
-  · rw [hs, hd, ← h.sem]; simp [hpNat, hj]
+  · rw [hw, h.waiters]; unfold isBlocked; rw [hj]
+  · rw [hs, hd, ← h.sem]; unfold hpNat; rw [hj]
   · intro j hj' hb
     rw [hj] at hj'
     obtain ⟨a, b, c⟩ := h.blocked j hj' hb
